@@ -436,6 +436,9 @@ func init() {
 	})
 	// ---- C03
 	register("c03", func(r *rng.R, tier string) []lcw.Input {
+		if r.Chance(1, 8) {
+			return []lcw.Input{hiddenMounts(r, true)} // r5_c04.go
+		}
 		ws, in := world(r, true)
 		if r.Chance(1, 5) {
 			return []lcw.Input{siblingWorld(r)}
@@ -483,6 +486,9 @@ func init() {
 	})
 	// ---- C04
 	register("c04", func(r *rng.R, tier string) []lcw.Input {
+		if r.Chance(1, 6) {
+			return []lcw.Input{hiddenMounts(r, false)} // r5_c04.go
+		}
 		if r.Chance(1, 6) {
 			return []lcw.Input{siblingWorld(r)}
 		}
